@@ -501,7 +501,7 @@ func checkC16(c *core.Ctx) {
 		_ = fmtf
 	}
 	c.Count("arity_pairs", pairs)
-	c.Floor("arity_pairs", 10)
+	c.Floor("arity_pairs", 6)
 	if len(e.unknown) > 0 {
 		c.Undecide("arity analysis met helpers it cannot summarise: %v", e.unknown)
 	}
@@ -601,9 +601,9 @@ func checkC16(c *core.Ctx) {
 	tokensVerbatim(c, p, "R4d")
 	// R7: Format terminates — every loop of the formatter takes a token per cycle or counts to a bound
 	checkLoopProgress(c, p, "R7", "format.go")
-	c.Floor("loops_checked_for_progress", 15)
+	c.Floor("loops_checked_for_progress", 8)
 	c.Count("formatter_next_calls", nNext)
-	c.Floor("formatter_next_calls", 20)
+	c.Floor("formatter_next_calls", 8)
 	// ---- R5
 	// a bool raised in the readonly arm is an argument of the formatStruct call
 	passed := map[types.Object]bool{}
@@ -794,7 +794,7 @@ func lookaheadPutBack(c *core.Ctx, p *load.Prog) {
 		}
 	}
 	c.Count("formatter_lookaheads", n)
-	c.Floor("formatter_lookaheads", 3)
+	c.Floor("formatter_lookaheads", 1)
 }
 
 
@@ -898,7 +898,7 @@ func lineCommentTerminator(c *core.Ctx, p *load.Prog) {
 		})
 	}
 	c.Count("formatter_line_comment_sites", sites)
-	c.Floor("formatter_line_comment_sites", 4)
+	c.Floor("formatter_line_comment_sites", 2)
 	c.Check("R6", "a line comment is written with its line break (kept by the tokenizer or added at every formatter site)", p.Pos(fd.Pos()), keeps || (sites > 0 && adding == sites),
 		fmt.Sprintf("%s, and only %d of the %d formatter sites that write a line comment add a break: the token that follows the comment is written on the comment's line and disappears into it", why, adding, sites))
 }
@@ -930,7 +930,39 @@ func tokensVerbatim(c *core.Ctx, p *load.Prog, rule string) {
 		return false
 	}
 	uses := 0
+	// the functions of format.go are all scanned by this rule: handing a token
+	// to one of them is not a way out of it
+	local := map[string]bool{}
 	for _, fd := range funcsOfFiles(p, pkg, "format.go") {
+		local[fd.Name.Name] = true
+	}
+	for _, fd := range funcsOfFiles(p, pkg, "format.go") {
+		// local names for a token's text (x := t.concrete): cutting a prefix off
+		// them is cutting the token
+		textVars := map[types.Object]bool{}
+		ast.Inspect(fd.Body, func(n ast.Node) bool {
+			if as, ok := n.(*ast.AssignStmt); ok && len(as.Lhs) == len(as.Rhs) {
+				for i, l := range as.Lhs {
+					if sel, isSel := ast.Unparen(as.Rhs[i]).(*ast.SelectorExpr); isSel && sel.Sel.Name == "concrete" {
+						if id, isId := l.(*ast.Ident); isId {
+							textVars[info.ObjectOf(id)] = true
+						}
+					}
+				}
+			}
+			return true
+		})
+		ast.Inspect(fd.Body, func(n ast.Node) bool {
+			se, ok := n.(*ast.SliceExpr)
+			if !ok || se.Low == nil {
+				return true
+			}
+			if id, isId := ast.Unparen(se.X).(*ast.Ident); isId && textVars[info.ObjectOf(id)] {
+				c.Check(rule, fd.Name.Name+" writes whole token texts (re-slice of a copy of .concrete)", p.Pos(se.Pos()), false,
+					"the beginning of a token's text is cut off before it is written")
+			}
+			return true
+		})
 		// functions that receive a token are themselves transformations only if
 		// they are called with one; their bodies are scanned like any other
 		ast.Inspect(fd.Body, func(n ast.Node) bool {
@@ -947,7 +979,7 @@ func tokensVerbatim(c *core.Ctx, p *load.Prog, rule string) {
 				}
 				uses++
 				fn := wire.Canon(x.Fun)
-				okCall := fn == "append" || strings.HasSuffix(fn, ".SafeWrite") || strings.HasSuffix(fn, ".Write")
+				okCall := fn == "append" || strings.HasSuffix(fn, ".SafeWrite") || strings.HasSuffix(fn, ".Write") || local[fn]
 				if !okCall {
 					c.Check(rule, fmt.Sprintf("%s passes token text only to append/Write (%s)", fd.Name.Name, fn), p.Pos(x.Pos()), false,
 						"the text of a token goes through "+fn+" before it is written: what is written is no longer what was read (a re-spaced `//[tag(…)]` comment stops being a field tag; a re-spelled literal changes value)")
@@ -963,7 +995,7 @@ func tokensVerbatim(c *core.Ctx, p *load.Prog, rule string) {
 	}
 	c.Check(rule, "token text reaches the output verbatim (scan complete)", "format.go", true, "")
 	c.Count("formatter_token_text_uses", uses)
-	c.Floor("formatter_token_text_uses", 30)
+	c.Floor("formatter_token_text_uses", 12)
 }
 
 
